@@ -5,6 +5,8 @@ import (
 	"fmt"
 	"os"
 
+	"verifh/eng/conc"
+	"verifh/eng/crypto"
 	"verifh/eng/schist"
 	"verifh/eng/store"
 	"verifh/eng/unitchain"
@@ -12,12 +14,14 @@ import (
 )
 
 var engines = map[string]func([]string) int{
-	"schist": schist.Main,
-	"determ": schist.DetermMain,
-	"sync":   schist.SyncMain,
-	"prune":  schist.PruneMain,
-	"store":  store.Main,
-	"unitsc": unitsc.Main,
+	"schist":    schist.Main,
+	"determ":    schist.DetermMain,
+	"sync":      schist.SyncMain,
+	"prune":     schist.PruneMain,
+	"store":     store.Main,
+	"conc":      conc.Main,
+	"crypto":    crypto.Main,
+	"unitsc":    unitsc.Main,
 	"unitchain": unitchain.Main,
 }
 
